@@ -54,6 +54,8 @@ def obligations(chk, prop='C17'):
         if len(c) != 1:
             raise Inconclusive('step::Collection::%s: %d candidates' % (k, len(c)))
         reg_body[k] = c[0]
+    cb = [b for (st, m), lst in prog.by_method.items() if st == 'Collection' and m == 'clone' for tr, b in lst if tr == 'Clone']
+    clone_body = cb[0] if len(cb) == 1 else None
     global DEFS
     runs = [(l, DEFS_A) for l in layouts] + [(l, DEFS_B) for l in (('given', 'when', 'given'), ('given', 'given', 'given'), ('then', 'when', 'then'))]
     for layout, DEFS in runs:
@@ -177,6 +179,9 @@ def obligations(chk, prop='C17'):
             for i, k in enumerate(layout):
                 loc = Adt('Option<step::Location>', {(1, 0): Obj('loc', d=i)}, 1)
                 coll = ex_.call_body(reg_body[k], [coll, loc, Obj('regex', d=i), Obj('stepfn', d=i)])
+            # a clone of a configured collection (runner::Basic::clone / Cucumber::clone copy it) matches exactly like the original
+            if clone_body is not None and ex_.branch(z3.Bool('use-a-clone-of-the-collection')):
+                coll = ex_.call_body(clone_body, [Ref(Cell(coll, name='original collection'), ())])
             step = Adt('gherkin::Step', {(None, SF.index('ty')): Adt('gherkin::StepType', {}, kwd), (None, SF.index('value')): Obj('symstr', name='step.value')}, None, 'step')
             out = ex_.call_body(find, [Ref(Cell(coll, name='collection'), ()), Ref(Cell(step, name='step'), ())])
             return {'out': ex_.materialize(out), 'tried': [e['d'] for e in ex_.env.get('log', []) if e['kind'] == 'regex_tried']}
